@@ -62,6 +62,19 @@ def oracle_conserve(inp):
     e1 = W.energy(r)
     ok = abs(e1 - e0) <= TOL[inp['api']] * max(e0, 1e-30) if e0 > 0 else e1 <= 1e-20
     out.append(('energy_conserved', ok, e0, e1))
+    if inp['api'] == 'torch' and len(inp['shape']) == 2:
+        # the same kernel object handed to consecutive calls (first through a binary aperture, then without): the second call still
+        # conserves energy and the kernel the caller holds is still unit-modulus (observation point: modulus of get_propagation_kernel)
+        import random
+        L = W.lw(); h, w = inp['shape']
+        K = L.get_propagation_kernel(nu=h, nv=w, dx=inp['dx'], wavelength=inp['lam'], distance=inp['z'], propagation_type=inp['method'])
+        out.append(('kernel_unit_modulus', float((K.abs() - 1).abs().max()) <= 1e-5, 1.0, float(K.abs().max())))
+        ap = torch.tensor(binary_aperture(random.Random(inp['fseed']), inp['shape']), dtype=torch.float32)
+        W.t_prop(u, 'custom', inp['z'], inp['dx'], inp['lam'], aperture=ap, kernel=K)
+        r2 = W.t_prop(u, 'custom', inp['z'], inp['dx'], inp['lam'], kernel=K)
+        e2 = W.energy(r2)
+        out.append(('energy_conserved_with_reused_kernel', abs(e2 - e0) <= TOL['torch'] * max(e0, 1e-30) if e0 > 0 else e2 <= 1e-20, e0, e2))
+        out.append(('kernel_unit_modulus_after_use', float((K.abs() - 1).abs().max()) <= 1e-5, 1.0, [float(K.abs().min()), float(K.abs().max())]))
     return out
 
 
